@@ -87,14 +87,15 @@ let () =
      keep re-entering speculation; a timeout is reported like exhausted fuel (no verdict) *)
   let limit = try float_of_string (Sys.getenv "HIDVM_TIMEOUT") with _ -> 20.0 in
   Sys.set_signal Sys.sigvtalrm (Sys.Signal_handle (fun _ -> raise Timeout));
-  let id = ref "" and w = ref Z0 and st = ref [] and cn = ref [] and code = ref [] and watch = ref [] in
+  let id = ref "" and w = ref Z0 and st = ref [] and cn = ref [] and code = ref [] and watch = ref [] and lay = ref None in
   (try
     while true do
       let line = input_line stdin in
       let toks = List.filter (fun s -> s <> "") (String.split_on_char ' ' line) in
       match toks with
       | [] -> ()
-      | "P" :: i :: _ -> id := i; st := []; cn := []; code := []; watch := []
+      | "P" :: i :: _ -> id := i; st := []; cn := []; code := []; watch := []; lay := None
+      | "M" :: [a; b; c] -> lay := Some (z_of_bin a, z_of_bin b, z_of_bin c)
       | "W" :: [v] -> w := z_of_bin v
       | "S" :: l -> st := List.map z_of_bin l
       | "C" :: l -> cn := List.map z_of_bin l
@@ -103,7 +104,7 @@ let () =
       | "R" :: [f] ->
           let fuel = nat_of_int (int_of_string f) O in
           let arm t = ignore (Unix.setitimer Unix.ITIMER_VIRTUAL { Unix.it_interval = 0.0; Unix.it_value = t }) in
-          let res = (try arm limit; let r = run_program !w !st !cn (List.rev !code) !watch mon_none fuel in arm 0.0; r
+          let res = (try arm limit; let r = (let prog = List.rev !code in let m = (match !lay with None -> mon_none | Some (a, b, c) -> mon_entitled !w !cn prog a b c) in run_program !w !st !cn prog !watch m fuel) in arm 0.0; r
                      with Timeout -> arm 0.0; OFuel ([], [])
                         | Stack_overflow -> arm 0.0; OFuel ([], [])) in
           let snap_str (s : state) =
